@@ -863,3 +863,107 @@ func Harness_C15_stack_mixed() {
 	})
 	VerifCover("done")
 }
+
+// c15SmallTable writes the refs with the Go writer (dir 0) or the C writer (dir 1); ok=false: refused.
+func c15SmallTable(dir int, cfg Config, min, max uint64, refs []*RefRecord) ([]byte, bool) {
+	if dir == 0 {
+		return writeTable(cfg, min, max, refs, nil)
+	}
+	return c15Write(cfg, min, max, refs, nil)
+}
+
+// Harness_C15_small_seek: SeekRef on small tables with symbolic names, written by either implementation, returns the same suffix from both readers, and it is the suffix of the input.
+// bounds: 1..3 refs (value or deletion) with ascending names of 1 byte (thorough 1..2 bytes), all NUL-free byte values; BlockSize {64, 4096} x Unaligned x RestartInterval {1, 16}; key = every NUL-free string of length 0..2; writer in {Go, C}
+// assumes: names and keys contain no NUL byte (C strings)
+// covers: done
+func Harness_C15_small_seek() {
+	dir := VerifChoose(2)
+	cfg := Config{BlockSize: []uint32{64, 0}[VerifChoose(2)], Unaligned: VerifChoose(2) == 1, RestartInterval: 1 - VerifChoose(2)}
+	g := &genCfg{hashSize: 20, hashFree: 1, idxSmall: true}
+	n := VerifIntRange(1, 3)
+	names := ascendingNames(n, 1, 1+VerifTier())
+	var refs []*RefRecord
+	for i := 0; i < n; i++ {
+		c15NulFree(names[i])
+		r := &RefRecord{RefName: names[i], UpdateIndex: 1}
+		if VerifChoose(2) == 1 {
+			r.Value = genHash(g, 0x11)
+		}
+		refs = append(refs, r)
+	}
+	data, ok := c15SmallTable(dir, cfg, 1, 1, refs)
+	VerifAssert(ok, "writer-accepts")
+	if !ok {
+		return
+	}
+	rd, err := NewReader(&ByteBlockSource{data}, "t")
+	VerifAssert(err == nil, "go-newreader")
+	if err != nil {
+		return
+	}
+	key := symString(VerifIntRange(0, 2))
+	c15NulFree(key)
+	exp := c15Head(nil, 1, 1)
+	for _, r := range refs {
+		if r.RefName >= key {
+			exp = c15Ref(exp, r, 20)
+		}
+	}
+	exp = c15End(exp, 0)
+	goDump := c15GoRefs(rd, key, 20)
+	VerifAssert(goDump == nil || bytesEq(goDump, exp), "seekref-differs-from-input")
+	c15Same(data, 0, []byte(key), 0, goDump, "readers-differ-on-seekref")
+	VerifCover("done")
+}
+
+// Harness_C15_small_refsfor: RefsFor on small tables with symbolic object ids, written by either implementation, returns the same refs from both readers, and they are the refs of the input that point at the object.
+// bounds: 2 refs (thorough 2..3) named a,b,c; object ids X,Y symbolic in their first 2 bytes (X != Y) plus a fixed id; each ref's value / peeled value among {X, Y, fixed, deletion}; query X, Y or an id occurring nowhere; min update index 5; BlockSize 96 x Unaligned x SkipIndexObjects; writer in {Go, C}
+// covers: done
+func Harness_C15_small_refsfor() {
+	dir := VerifChoose(2)
+	cfg := Config{BlockSize: 96, Unaligned: VerifChoose(2) == 1, SkipIndexObjects: VerifChoose(2) == 1, RestartInterval: 1}
+	x, y, z, f := make([]byte, 20), make([]byte, 20), make([]byte, 20), make([]byte, 20)
+	for i := 2; i < 20; i++ {
+		x[i], y[i], z[i], f[i] = 0x77, 0x77, 0x77, 0x70
+	}
+	x[0], x[1], y[0], y[1], z[0], z[1] = VerifU8(), VerifU8(), VerifU8(), VerifU8(), VerifU8(), VerifU8()
+	VerifAssume(!bytesEq(x, y))
+	VerifAssume(!bytesEq(x, z))
+	VerifAssume(!bytesEq(y, z))
+	ids := [][]byte{x, y, f}
+	n := VerifIntRange(2, 2+VerifTier())
+	var refs []*RefRecord
+	for i := 0; i < n; i++ {
+		r := &RefRecord{RefName: string([]byte{'a' + byte(i)}), UpdateIndex: 5 + uint64(i%2)}
+		switch c := VerifChoose(5); c {
+		case 0, 1, 2:
+			r.Value = ids[c]
+		case 3:
+			r.Value = f
+			r.TargetValue = ids[VerifChoose(2)]
+		}
+		refs = append(refs, r)
+	}
+	data, ok := c15SmallTable(dir, cfg, 5, 6, refs)
+	VerifAssert(ok, "writer-accepts")
+	if !ok {
+		return
+	}
+	rd, err := NewReader(&ByteBlockSource{data}, "t")
+	VerifAssert(err == nil, "go-newreader")
+	if err != nil {
+		return
+	}
+	q := [][]byte{x, y, z}[VerifChoose(3)]
+	exp := c15Head(nil, 5, 6)
+	for _, r := range refs {
+		if bytesEq(r.Value, q) || bytesEq(r.TargetValue, q) {
+			exp = c15Ref(exp, r, 20)
+		}
+	}
+	exp = c15End(exp, 0)
+	goDump := c15GoRefsFor(rd, q, 20)
+	VerifAssert(goDump == nil || bytesEq(goDump, exp), "refsfor-differs-from-input")
+	c15Same(data, 2, q, 0, goDump, "readers-differ-on-refsfor")
+	VerifCover("done")
+}
